@@ -252,6 +252,27 @@ Section ROWS.
                                     | Some sp => Some (tr, sp) | None => None end
                                 | _, _ => None end) t)
     end.
+  (* the same with the statement fuel as a parameter (eval_until_g / index_rows_g = fuel 12): a chain of k selectors nests
+     2 levels of sub-queries per && / || node, the theorems about chains are stated for every sufficient fuel *)
+  Fixpoint eval_until_gf (fuel : nat) (c : ctx) (d : db) (target : string) (withs : list (string * select)) (cte : env) : option table :=
+    match withs with
+    | [] => None
+    | (a, q) :: r =>
+        match eval_sel re_match parse_float hash64 [(attrs_table c, map row_of_irow d)] fuel cte false q with
+        | Some t => if String.eqb a target then Some t else eval_until_gf fuel c d target r ((a, t) :: cte)
+        | None => None
+        end
+    end.
+  Definition index_rows_gf (fuel : nat) (c : ctx) (d : db) (s : select) : option (list (string * list string)) :=
+    match eval_until_gf fuel c d "index_grouped" (s_withs s) [] with
+    | None => None
+    | Some t =>
+        all_some (map (fun r => match lookup "trace_id" r, lookup "span_id" r with
+                                | Some (VStr tr), Some (VArr l) =>
+                                    match all_some (map (fun v => match v with VStr x => Some x | _ => None end) l) with
+                                    | Some sp => Some (tr, sp) | None => None end
+                                | _, _ => None end) t)
+    end.
 End ROWS.
 Definition eval_until := eval_until_g re_toy float_toy hash_toy.
 Definition index_rows := index_rows_g re_toy float_toy hash_toy.
